@@ -2,6 +2,7 @@
 //! tasks under a scheduler the simulator owns; one execution = (code, workload, decisions).
 
 mod c01;
+mod c06t;
 mod c07;
 mod c08;
 mod c13;
@@ -72,6 +73,7 @@ fn main() {
         "c08" => dispatch(&c08::C08, &args),
         "c07" => dispatch(&c07::C07, &args),
         "c01" => dispatch(&c01::C01, &args),
+        "c06t" => dispatch(&c06t::C06T, &args),
         "c13" => dispatch(&c13::C13, &args),
         other => simcore::harness_error(&format!("unknown command {other:?}")),
     }
